@@ -516,6 +516,8 @@ func (c09child) redir(mode string) string {
 	if err := p.Start(); err != nil {
 		return "procerr"
 	}
+	// (Address reads the listener field without the lock Serve publishes it under: do not look while it is being written)
+	time.Sleep(2 * time.Millisecond)
 	for i := 0; i < 400 && p.Address() == ""; i++ {
 		time.Sleep(time.Millisecond)
 	}
